@@ -1,5 +1,5 @@
 (* Props/C17.v -- C17: source is decoded as UTF-8 however reads are chunked; read faults fail. *)
-From Az65 Require Import Base Utf8 CharReader CharReaderFacts.
+From Az65 Require Import Base Token Utf8 CharReader CharReaderFacts Lexer LexerFacts.
 
 (* (1) For EVERY byte string and EVERY read schedule (each read delivering between 1 and the
        requested number of bytes), the characters the reader yields and the way the stream ends
@@ -17,6 +17,27 @@ Theorem C17_fault_never_eof :
     (f <= length bytes)%nat -> snd (cr_chars bytes sc (Some f)) <> CrEof.
 Proof. exact fault_never_eof. Qed.
 Print Assumptions C17_fault_never_eof.
+
+(* (3) "rejected with a diagnostic at the offending position": by (1) the lexer receives the characters of the
+       valid prefix and then the failure; the read error it reports -- for ANY such prefix, name tables and
+       classification of non-ASCII characters -- is located on line 1 + (line breaks in the prefix), at column
+       1 + (characters after the last of them): the position of the character that could not be decoded. *)
+Theorem C17_read_fault_located :
+  forall dirs ops regs flags u_alnum u_ws (prefix : list N) (l : loc),
+    In (IErr ERead l) (lex_fault dirs ops regs flags u_alnum u_ws prefix) ->
+    l = {| line := 1 + count_nl prefix; col := since_nl prefix 0 + 1 |}.
+Proof. exact read_fault_located. Qed.
+Print Assumptions C17_read_fault_located.
+
+(* non-vacuity: "nop" / line break, then a byte that is not UTF-8: the line break token, then the error at 2:1;
+   "@db 1" then the failure: the number is never delivered, the error is at 1:6 *)
+Example C17_fault_example :
+  (lex_fault [] [] [] [] (fun _ => false) (fun _ => false) [110; 111; 112; 10]%N =
+    [ITok (TLabel LkGlobal [110; 111; 112]%N) {| line := 1; col := 1 |}; ITok TNewline {| line := 1; col := 4 |};
+     IErr ERead {| line := 2; col := 1 |}]) /\
+  (lex_fault [] [] [] [] (fun _ => false) (fun _ => false) [48; 32; 49]%N =
+    [ITok (TNumber 0) {| line := 1; col := 1 |}; IErr ERead {| line := 1; col := 4 |}]).
+Proof. split; vm_compute; reflexivity. Qed.
 
 (* non-vacuity / the historical defect: 'a' 'b' U+00E9 read as [61 62 C3] then [A9] *)
 Example C17_window_straddle :
